@@ -441,8 +441,9 @@ def _eqpairs(g, scale):
     """C03: Equals in BOTH orders on bitmaps with the same chunk keys whose contents are identical / a strict prefix / a strict
     suffix / differ in one middle value, for every pairing of container kinds (forced through mkrepr)"""
     r = g.r
-    for _ in range(int(10 * scale)):
-        a = rand_set(g)
+    fixed = [[(1000, 3999), (10000, 12499), (20000, 20000), (30000, 30499)], [(5, 5), (9, 9000)], [(0, 4999), (6000, 6000), (65535, 65535)]]
+    for it in range(int(10 * scale) + len(fixed)):
+        a = fixed[it] if it < len(fixed) else rand_set(g)
         if not a:
             continue
         variants = [("same", list(a))]
@@ -453,6 +454,17 @@ def _eqpairs(g, scale):
         if a[0][1] > a[0][0] + 1:
             m = r.randrange(a[0][0] + 1, a[0][1])
             variants.append(("hole", [(a[0][0], m - 1), (m + 1, a[0][1])] + list(a[1:])))
+        # same cardinality, one value moved: the last / first / an interior value of a run is dropped and a value outside every
+        # run (and not touching one) is added instead
+        free = [v for v in (a[-1][1] + 2, a[-1][1] + 700, a[0][0] - 2, a[0][0] - 900) if 0 <= v < CH
+                and all(not (lo - 1 <= v <= hi + 1) for lo, hi in a)]
+        if free:
+            for j in (range(len(a)) if it < len(fixed) else [r.randrange(len(a))]):
+                lo, hi = a[j]
+                for cls, drop in (("moved-last", hi), ("moved-first", lo), ("moved-mid", (lo + hi) // 2)):
+                    rest = [(lo, drop - 1), (drop + 1, hi)]
+                    b2 = ivs_union(list(a[:j]) + [iv for iv in rest if iv[0] <= iv[1]] + list(a[j + 1:]), [(free[0], free[0])])
+                    variants.append((cls, b2))
         common = rand_set(g)
         k0, k1 = sorted(r.sample(range(0, 65536), 2)) if r.random() < 0.7 else (65534, 65535)
         for cls, b in variants:
